@@ -213,10 +213,12 @@ def _validate_storage_names(
         return
     # Without a default entry every output that gets a storage array in `init_store` needs its own entry.
     for f in pipeline.functions:
-        if f.mapspec is not None and f.mapspec.inputs and f.output_name not in storage:
+        # `init_store` looks a 1-tuple `output_name` up under its single name
+        key = f.output_name[0] if isinstance(f.output_name, tuple) and len(f.output_name) == 1 else f.output_name
+        if f.mapspec is not None and f.mapspec.inputs and key not in storage:
             msg = (
-                f"Cannot find storage class for `{f.output_name}`."
-                f" Either add `storage[{f.output_name}] = ...` or"
+                f"Cannot find storage class for `{key}`."
+                f" Either add `storage[{key}] = ...` or"
                 ' use a default by setting `storage[""] = ...`.'
             )
             raise ValueError(msg)
